@@ -52,11 +52,12 @@ Init == l = 1 /\ content = {}
 \* hidden part must be exactly what it was. Ordinary events have no such fields (hid = 0).
 Hid(e)  == IF "hid" \in DOMAIN e THEN e.hid ELSE 0
 Hid2(e) == IF "hid2" \in DOMAIN e THEN e.hid2 ELSE 0
-HiddenUntouched(e) == ("hid" \in DOMAIN e) => (e.hid2 = e.hid /\ e.hsum2 = e.hsum)
+ConsumeAllNames == {"drain_all", "into_iter_all"}      \* the whole content leaves through a consuming cursor
+HiddenUntouched(e) == ("hid" \in DOMAIN e /\ e.o.name \notin ConsumeAllNames) => (e.hid2 = e.hid /\ e.hsum2 = e.hsum)
 \* (`retain` in a windowed history rejects watched keys only: its predicate keeps every key that is not listed;
 \*  `cursor_all` is a complete traversal with a borrowing cursor, see AllowedCursorAll)
 WindowNames == {"insert", "insert_key_value", "checked_insert", "insert_unchecked", "get", "get_key_value", "contains_key", "index",
-                "get_mut", "index_mut", "remove", "remove_entry", "entry", "disjoint", "retain", "cursor_all"}
+                "get_mut", "index_mut", "remove", "remove_entry", "entry", "disjoint", "retain", "cursor_all"} \cup ConsumeAllNames
 
 \* the three groups of conjuncts, so that a rejection can say which one failed
 PostOf(e) == {Ent(x) : x \in SetOf(e.p)}
@@ -78,9 +79,19 @@ AllowedCursorAll(e) ==
   /\ e.r.hc = e.hid /\ e.r.hs = (IF e.o.kind = "keys" THEN e.hksum ELSE e.hsum)
   /\ e.r.count = Len(e.s) + e.hid
   /\ Len(e.r.win) = Cardinality(D) /\ SetOf(e.r.win) = {Dict!DProj(e.o.kind, x) : x \in D}
+\* drain() / into_iter() consumed to the end on a very large container: exactly the entries the container held,
+\* each once (watched ones listed, hidden ones by count and digest); afterwards the container is empty; nothing was
+\* destroyed by the call (the caller owns every yielded pair)
+AllowedConsumeAll(e) ==
+  LET D == TagPre(e.s, e.mode) IN
+  /\ e.p = <<>> /\ e.hid2 = 0 /\ e.len = 0 /\ e.empty
+  /\ e.dk = <<>> /\ e.dv = <<>> /\ e.lk = <<>> /\ e.lv = <<>>
+  /\ e.r.hc = e.hid /\ e.r.hs = e.hsum /\ e.r.count = Len(e.s) + e.hid
+  /\ Len(e.r.win) = Cardinality(D) /\ SetOf(e.r.win) = {Dict!DJEnt(x) : x \in D}
 Allowed(e) ==
   LET res == [ret |-> e.r, post |-> PostOf(e), dk |-> SetOf(e.dk), dv |-> SetOf(e.dv), lk |-> SetOf(e.lk), lv |-> SetOf(e.lv)]
-  IN IF e.o.name = "cursor_all" THEN AllowedCursorAll(e)
+  IN IF e.o.name \in ConsumeAllNames THEN AllowedConsumeAll(e)
+     ELSE IF e.o.name = "cursor_all" THEN AllowedCursorAll(e)
      ELSE Dict!DictAllows(TagPre(e.s, e.mode), e.n - Hid(e), NormOp(e.o), res)
 
 \* A call during which user code panicked (the harness injected a panic into one of its
